@@ -7,6 +7,7 @@ CONSTANTS
   MaxRules = 2
   FixedRules = {}
   EdbChoices <- E1Edbs
+  ExtraRules = {}
   Randomized = FALSE
   Keep <- KeepSafe
 INVARIANT Emit
